@@ -16,7 +16,7 @@ GEN_DIR = os.path.join(vlib.COQ, "gen", PROP)
 BO_KEY = "byteorder-native"
 
 CFG = dict(
-    imports=["From Verif.C33 Require Import Model Spec.", "From VerifGen Require Import Gen."],
+    imports=["From Verif.C33 Require Import Model ArithModel Spec.", "From VerifGen Require Import Gen."],
     n=dict(quick=100, thorough=6000),
     big=dict(quick=2, thorough=60),
     rule="(a) table-size cases: BPFMaglevMaxEndpointsPerService set through Felix's own parameter validation "
@@ -82,14 +82,96 @@ def translate(repo):
     if len(orders) != 1 or orders[0] not in ("NativeEndian", "LittleEndian", "BigEndian"):
         raise ValueError("consistenthash.go: expected exactly one byte-order identifier binary.<X>Endian, found %s" % orders)
     bo = {"NativeEndian": "BONative", "LittleEndian": "BOLittle", "BigEndian": "BOBig"}[orders[0]]
+
+    def arith_of_source():
+        # integer types of the arithmetic in hashFromString / offsetAndSKip / permutation
+        TYPES = {"int": (64, True), "int64": (64, True), "uint": (64, False), "uint64": (64, False), "uintptr": (64, False),
+                 "uint32": (32, False), "int32": (32, True), "uint16": (16, False), "int16": (16, True), "uint8": (8, False), "int8": (8, True)}
+        def nows(x):
+            return re.sub(r"\s+", "", x)
+        def fbody(sig_re):
+            mm = re.search(sig_re, ch_src)
+            if not mm:
+                return None, None
+            rest = ch_src[mm.end():]
+            end = re.search(r"\n}\n", rest)
+            return mm, rest[:end.start()] if end else rest
+        mh, hbody = fbody(r"func hashFromString\(s string, h hash\.Hash, seed \[\]byte\) \((\w+), error\) \{")
+        if not mh:
+            raise ValueError("consistenthash.go: hashFromString(s, h, seed) (T, error) not found")
+        hash_ty = mh.group(1)
+        mr = re.search(r"var result (\w+)", hbody)
+        if not mr or mr.group(1) != "uint32":
+            raise ValueError("consistenthash.go: hashFromString no longer decodes a uint32 (`var result uint32`)")
+        hret = [nows(x) for x in re.findall(r"return (.+), nil", hbody)]
+        if hret != ["int(result)"] and hret != ["result"] and hret != [hash_ty + "(result)"]:
+            raise ValueError("consistenthash.go: hashFromString returns %s, expected a plain conversion of result" % hret)
+        mo, obody = fbody(r"func \(ch \*ConsistentHash\) offsetAndSKip\(s string\) \((\w+), (\w+), error\) \{")
+        if not mo:
+            raise ValueError("consistenthash.go: offsetAndSKip(s) (T, T, error) not found")
+        off_ty, skip_ty = mo.group(1), mo.group(2)
+        if not (hash_ty == off_ty == skip_ty) or off_ty not in TYPES:
+            raise ValueError("consistenthash.go: hash/offset/skip types %s/%s/%s are not one known integer type" % (hash_ty, off_ty, skip_ty))
+        rets = [x for x in re.findall(r"return (.+), nil", obody)]
+        if len(rets) != 1:
+            raise ValueError("consistenthash.go: offsetAndSKip has %d successful returns" % len(rets))
+        depth, cut = 0, None
+        for i, c in enumerate(rets[0]):
+            depth += c == "("
+            depth -= c == ")"
+            if c == "," and depth == 0:
+                cut = i
+                break
+        if cut is None:
+            raise ValueError("consistenthash.go: cannot split offsetAndSKip's return expression")
+        off_e, skip_e = nows(rets[0][:cut]), nows(rets[0][cut + 1:])
+        mty = r"(?:%s\()?" % off_ty
+        if re.fullmatch(r"\(?offset%" + mty + r"ch\.m\)?\)?", off_e):
+            off_red = True
+        elif off_e == "offset":
+            off_red = False
+        else:
+            raise ValueError("consistenthash.go: unrecognised offset expression %r" % off_e)
+        if re.fullmatch(r"\(skip%" + mty + r"\(?ch\.m-1\)?\)?\)\+1", skip_e):
+            skip_red = True
+        elif skip_e == "skip":
+            skip_red = False
+        else:
+            raise ValueError("consistenthash.go: unrecognised skip expression %r" % skip_e)
+        mp, pbody = fbody(r"func \(ch \*ConsistentHash\) permutation\(backendName string\) \(\[\]int, error\) \{")
+        if not mp:
+            raise ValueError("consistenthash.go: permutation(backendName) ([]int, error) not found")
+        pe = [nows(x) for x in re.findall(r"permutation\[j\] = (.+)", pbody)]
+        if len(pe) != 1 or not re.fullmatch(r"(?:int\()?\(offset\+\(j\*skip\)\)%(ch\.m|m)\)?", pe[0]):
+            raise ValueError("consistenthash.go: unrecognised preference-list expression %r" % pe)
+        if pe[0].endswith("%m") or pe[0].endswith("%m)"):
+            mm = re.search(r"\bm := (\w+)\(ch\.m\)", pbody)
+            if not mm or mm.group(1) != off_ty:
+                raise ValueError("consistenthash.go: permutation(): local m is not %s(ch.m)" % off_ty)
+        bits, signed = TYPES[off_ty]
+        arith = "{| a_bits := %d%%Z; a_signed := %s; a_offset_reduced := %s; a_skip_reduced := %s |}" % (
+            bits, "true" if signed else "false", "true" if off_red else "false", "true" if skip_red else "false")
+        return off_ty, off_red, skip_red, arith
+
+    try:
+        off_ty, off_red, skip_red, arith = arith_of_source()
+        arith_gen = arith
+    except ValueError as e:
+        # unrecognised shape: the obligation over source_arith must fail (then the search runs); the driver's model
+        # keeps the 64-bit int description so that only the implementation's own output decides
+        info["arith_error"] = str(e)
+        off_ty, off_red, skip_red = "UNRECOGNISED: " + str(e).replace("*)", "* )"), None, None
+        arith = "{| a_bits := 64%Z; a_signed := true; a_offset_reduced := true; a_skip_reduced := true |}"
+        arith_gen = "{| a_bits := 0%Z; a_signed := false; a_offset_reduced := false; a_skip_reduced := false |}"
+    info.update(arith_type=off_ty, offset_reduced=off_red, skip_reduced=skip_red, arith=arith)
     info.update(table_len=len(table), table_max=max(table) if table else None, limit=limit, factor=factor,
                 cfg_min=cmin, cfg_max=cmax, cfg_default=cdef, byte_order="binary." + orders[0], bo=bo)
     rows = []
     for i in range(0, len(table), 20):
         rows.append("  " + "; ".join(str(x) for x in table[i:i + 20]))
     gen = """(* GENERATED on every run by /verif/props/C33.py from the Go source of $VERIF_REPO.  Do not edit. *)
-From Coq Require Import List NArith.
-From Verif.C33 Require Import Model Spec.
+From Coq Require Import List NArith ZArith.
+From Verif.C33 Require Import Model ArithModel Spec.
 Import ListNotations.
 Open Scope N_scope.
 
@@ -108,9 +190,14 @@ Definition lut_factor : N := %d.
 Definition cfg_min : N := %d.
 Definition cfg_max : N := %d.
 
+(* consistenthash.go: hashFromString / offsetAndSKip / permutation compute in Go type `%s`;
+   offset reduced mod m in offsetAndSKip: %s; skip reduced mod (m-1), plus 1: %s *)
+Definition source_arith : arith := %s.
+
 Definition env : size_env :=
   {| e_table := prime_table; e_limit := prime_limit; e_factor := lut_factor; e_min := cfg_min; e_max := cfg_max |}.
-""" % ("binary." + orders[0], bo, len(table), ";\n".join(rows), limit, limit, factor, cmin, cmax, cdef, cmin, cmax)
+""" % ("binary." + orders[0], bo, len(table), ";\n".join(rows), limit, limit, factor, cmin, cmax, cdef, cmin, cmax,
+       off_ty, off_red, skip_red, arith_gen)
     return gen, info
 
 
@@ -189,6 +276,11 @@ def run(ctx):
             obligations += max(pc["obligations"], 1); discharged += pc["discharged"]; theorems += pc["theorems"]; axioms.update(pc["axioms"])
             if not pc["ok"]:
                 proof_broken = (proof_broken or "") + "\nPropsGenConfig.v (c33_configured_tables_ok) does not check against the regenerated Gen.v: " + pc["log"][-2500:]
+            pa = vlib.coq_props(ctx, props_file=os.path.join(GEN_DIR, "PropsGenArith.v"), extra_q=gq)
+            obligations += max(pa["obligations"], 2); discharged += pa["discharged"]; theorems += pa["theorems"]; axioms.update(pa["axioms"])
+            if not pa["ok"]:
+                proof_broken = (proof_broken or "") + ("\nPropsGenArith.v (c33_source_arith_exact / c33_source_permutation_bijective) does not check: with the integer "
+                                "types the source uses (%s, offset reduced: %s) the preference list is not the verified permutation: " % (tinfo.get("arith_type"), tinfo.get("offset_reduced"))) + pa["log"][-1500:]
             pb = vlib.coq_props(ctx, props_file=os.path.join(GEN_DIR, "PropsGenBO.v"), extra_q=gq)
             obligations += 2
             if pb["ok"]:
@@ -229,7 +321,8 @@ def run(ctx):
         return failing
 
     def run_once(n, seed, big, allsizes):
-        args = ["-n", n, "-seed", seed, "-bo", bo, "-big", big] + (["-allsizes"] if allsizes else [])
+        args = ["-n", n, "-seed", seed, "-bo", bo, "-big", big, "-arith", tinfo.get("arith", ""), "-cfgmax", tinfo.get("cfg_max", 3000),
+                "-dsizes", 2 if ctx.tier == "quick" else 40] + (["-allsizes"] if allsizes else [])
         lines = vlib.run_driver(ctx, exe, args)
         cases = [l for l in lines if "coq" in l]
         return lines, cases, evaluate(cases, "(check_case env)")
